@@ -386,6 +386,42 @@ def gen_trie(rng):
     return {"kind": "trie_uniform" if mode < 2 else "trie_mixed", "line": line.strip()}
 
 
+def gen_trie_wide(rng):
+    """nodes with very many children (up to all 256 byte values at one position, at one or two depths): the
+    breadth-first array layout of the real trie (degrees, child offsets, SIMD label search over long label runs) is a
+    representation the model does not have; only wide nodes exercise its width limits"""
+    pre = rnd_key(rng, rng.range(0, 6), [0, 1, 127, 128, 255])
+    width = rng.choice([256, 256, 255, 200, 129, 64, 33])
+    pool = list(range(256))
+    for i in range(width):
+        j = i + rng.below(256 - i)
+        pool[i], pool[j] = pool[j], pool[i]
+    first = sorted(pool[:width])
+    tail_len = rng.range(0, 2)
+    keys = []
+    for b in first:
+        keys.append(pre + bytes([b]) + rnd_key(rng, tail_len, [0, 7, 255]))
+    if rng.chance(1, 3):     # a second wide node below one child of the first
+        b = rng.choice(first)
+        for c in range(256):
+            keys.append(pre + bytes([b]) + bytes([c]) + rnd_key(rng, max(0, tail_len - 1), [0, 255]))
+    n = len(pre) + 1 + tail_len
+    keys = sorted(set(k[:n].ljust(n, b"\0") for k in keys))
+    if rng.chance(2, 3):
+        target = rng.choice(keys)
+        if rng.chance(1, 2):
+            t = bytearray(target)
+            i = rng.below(len(t))
+            t[i] = max(0, min(255, t[i] + rng.choice([-1, 1])))
+            target = bytes(t)
+    else:
+        target = (pre + rnd_key(rng, 3, list(range(256))))[:n]
+    d = rng.choice(["ge", "le"])
+    incl = rng.choice(["0", "1"])
+    line = f"surf_trie {d} {incl} {hx(target)} " + " ".join(hx(k) for k in keys)
+    return {"kind": "trie_wide", "line": line.strip()}
+
+
 def gen_enc2(rng):
     a = rnd_value(rng)
     if rng.chance(1, 3):
@@ -420,6 +456,9 @@ def cases(rng, tier):
     # malformed stream: arbitrary values everywhere
     for _ in range(400 * k):
         out.append(gen_prune(rng, "anything"))
+    # wide trie nodes (appended last so that the stream of the cases above is unchanged)
+    for _ in range(80 * k):
+        out.append(gen_trie_wide(rng))
     return out
 
 
